@@ -489,6 +489,113 @@ func runC19(c *Ctx) {
 			c.Check(fname(lp)+"#returns-read-result-after-defers", lp.Pos(), bad == 0 && nRet > 0, ifelse(bad == 0 && nRet > 0, fmt.Sprintf("all %d returns read the variable the deferred flush writes, after the deferred calls ran", nRet), fmt.Sprintf("%d of %d returns take their value before the deferred final flush runs (the result is not the variable the closure writes): a failed write of the last batch — the one holding the root — is reported as success, and the caller records the sync as done", bad, nRet)))
 		}
 	}
+	// ------------------------------------------------------------ Z9
+	c.Rule("C19.Z9", "DECISION", "AddSubTrie and AddRawEntry return without scheduling the entry — so that the referring parent does not wait for it — only if the entry is the empty one, is in the memory batch, or is in the database; an entry that is merely requested already still gets the new parent as a dependant (schedule merges the parents), otherwise the parent is committed before the entry arrives and an interrupted sync leaves a node whose code / sub-trie is missing")
+	c.Min(2)
+	{
+		batchF := w.Field("trie", "syncMemBatch", "batch")
+		dbF := w.Field("trie", "Sync", "database")
+		decode := w.FuncObj("trie", "", "decodeNode")
+		sched := w.FuncObj("trie", "Sync", "schedule")
+		onDB := func(v ssa.Value) bool {
+			return derivesFrom(v, func(x ssa.Value) bool {
+				cc, ok := x.(*ssa.Call)
+				if !ok {
+					return false
+				}
+				r := callRecv(cc)
+				if r == nil {
+					return false
+				}
+				f, _ := loadedField(stripConv(r))
+				return f == dbF
+			})
+		}
+		present := func(a Atom) string {
+			x := stripConv(a.X)
+			switch a.Kind {
+			case "eq":
+				if !a.Truth || a.Y == nil {
+					return ""
+				}
+				for _, v := range []ssa.Value{stripConv(a.X), stripConv(a.Y)} {
+					if u, ok := v.(*ssa.UnOp); ok && u.Op == token.MUL {
+						if g, isG := u.X.(*ssa.Global); isG && strings.HasPrefix(g.Name(), "empty") {
+							return "empty"
+						}
+					}
+				}
+			case "true":
+				if !a.Truth {
+					return ""
+				}
+				if ex, ok := x.(*ssa.Extract); ok {
+					if lk, isLk := ex.Tuple.(*ssa.Lookup); isLk && ex.Index == 1 {
+						if f, _ := loadedField(stripConv(lk.X)); f == batchF {
+							return "in the memory batch"
+						}
+					}
+					if cc, isCall := ex.Tuple.(*ssa.Call); isCall && onDB(cc) {
+						return "in the database"
+					}
+				}
+				if cc, ok := x.(*ssa.Call); ok && onDB(cc) {
+					return "in the database"
+				}
+			case "isnil":
+				if a.Truth {
+					return ""
+				}
+				if ex, ok := x.(*ssa.Extract); ok {
+					if cc, isCall := ex.Tuple.(*ssa.Call); isCall && sameFunc(calleeObj(cc), decode) {
+						if args := callArgs(cc); len(args) > 1 && onDB(args[1]) {
+							return "decodes from the database"
+						}
+					}
+				}
+			}
+			return ""
+		}
+		for _, name := range []string{"AddSubTrie", "AddRawEntry"} {
+			fn := w.Fn("trie", "Sync", name)
+			c.sawFunc(fname(fn))
+			scs := callsTo(fn, sched)
+			if len(scs) == 0 {
+				c.Undecided(fname(fn)+"#unscheduled-only-if-present", fn.Pos(), "no call of schedule found")
+				continue
+			}
+			schedBlocks := map[*ssa.BasicBlock]bool{}
+			for _, sc := range scs {
+				schedBlocks[sc.Block()] = true
+			}
+			nEarly, bad := 0, 0
+			badAt := ""
+			okEnum := enumPaths(fn, 4096, func(pr PathResult) {
+				for b := range pr.Blocks {
+					if schedBlocks[b] {
+						return
+					}
+				}
+				nEarly++
+				why := ""
+				for _, a := range atomsOf(pr.Facts) {
+					if w := present(a); w != "" {
+						why = w
+					}
+				}
+				if why == "" {
+					bad++
+					badAt = w.Pos(pr.Ret.Pos())
+				}
+			})
+			c.sites += nEarly
+			if !okEnum {
+				c.Undecided(fname(fn)+"#unscheduled-only-if-present", fn.Pos(), "paths could not be enumerated")
+				continue
+			}
+			c.Check(fname(fn)+"#unscheduled-only-if-present", fn.Pos(), bad == 0 && nEarly > 0, ifelse(bad == 0 && nEarly > 0, fmt.Sprintf("all %d returns without scheduling established that the entry is empty, in the memory batch or in the database", nEarly), fmt.Sprintf("%d of %d returns without scheduling (e.g. %s) are taken although the entry is neither empty nor stored: the referring parent gets no dependency on it and is committed before the entry arrives", bad, nEarly, badAt)))
+		}
+	}
 }
 
 func fieldBaseType(v ssa.Value) types.Type {
